@@ -1,0 +1,105 @@
+//go:build verif
+
+// Contracts for package plenc, checked by /verif/engine (plencvc). This file
+// contains comments only and is compiled only under the verif build tag.
+//
+// reflect.Kind values: Bool 1, Int 2, Int8 3, Int16 4, Int32 5, Int64 6,
+// Uint 7, Uint8 8, Uint16 9, Uint32 10, Uint64 11, Uintptr 12, Float32 13,
+// Float64 14, Complex64 15, Complex128 16, Array 17, Chan 18, Func 19,
+// Interface 20, Map 21, Pointer 22, Slice 23, String 24, Struct 25,
+// UnsafePointer 26. rtype(T) is reflect.TypeOf of a value of basic type T.
+// The registry of a Plenc instance is at p + 8.
+
+package plenc
+
+//@ func plenc.*baseRegistry.Load
+//@   safety C17 C08
+//@   trust typeassert                   # the registry only ever stores Codec values (Store / StoreOrSwap signatures)
+//@   pure H
+//@   assigns nothing
+
+//@ func plenc.*baseRegistry.Store
+//@   safety C17
+//@   assigns H
+
+//@ func plenc.*baseRegistry.StoreOrSwap
+//@   safety C17 C08
+//@   trust typeassert
+//@   assigns H
+
+//@ func plenc.*Plenc.codecForBasicType
+//@   safety C17 C08
+//@   assigns nothing
+//@   ensures[C17,C08] r1 == nil ==> r0 != nil && r0 == @plenc.*baseRegistry.Load(p + 8, typ, tag)
+//@   ensures[C08] r1 != nil ==> r0 == nil
+//@   ensures[C08,C17] (r1 == nil) == (@plenc.*baseRegistry.Load(p + 8, typ, tag) != nil)
+
+//@ func plenc.*Plenc.CodecForTypeRegistry
+//@   safety C08 C17
+//@   noglobals[C17]
+//@   # an existing registration for exactly (typ, tag) wins over the kind-based defaults
+//@   ensures[C17,C08] old(@plenccodec.CodecRegistry.Load(registry, typ, tag)) != nil ==> r1 == nil && r0 == old(@plenccodec.CodecRegistry.Load(registry, typ, tag))
+//@   ensures[C08] r1 == nil ==> r0 != nil
+//@   ensures[C08] r1 != nil ==> r0 == nil
+//@   # named basic kinds fall back to the codec registered on this instance for the basic type under the same tag
+//@   ensures[C17,C02,C08] old(@plenccodec.CodecRegistry.Load(registry, typ, tag)) == nil && @reflect.Type.Kind(typ) == 1 ==> (r1 == nil) == (old(@plenc.*baseRegistry.Load(p + 8, rtype(bool), tag)) != nil) && (r1 == nil ==> r0 == old(@plenc.*baseRegistry.Load(p + 8, rtype(bool), tag)))
+//@   ensures[C17,C02,C08] old(@plenccodec.CodecRegistry.Load(registry, typ, tag)) == nil && @reflect.Type.Kind(typ) == 2 ==> (r1 == nil) == (old(@plenc.*baseRegistry.Load(p + 8, rtype(int), tag)) != nil) && (r1 == nil ==> r0 == old(@plenc.*baseRegistry.Load(p + 8, rtype(int), tag)))
+//@   ensures[C17,C02,C08] old(@plenccodec.CodecRegistry.Load(registry, typ, tag)) == nil && @reflect.Type.Kind(typ) == 3 ==> (r1 == nil) == (old(@plenc.*baseRegistry.Load(p + 8, rtype(int8), tag)) != nil) && (r1 == nil ==> r0 == old(@plenc.*baseRegistry.Load(p + 8, rtype(int8), tag)))
+//@   ensures[C17,C02,C08] old(@plenccodec.CodecRegistry.Load(registry, typ, tag)) == nil && @reflect.Type.Kind(typ) == 4 ==> (r1 == nil) == (old(@plenc.*baseRegistry.Load(p + 8, rtype(int16), tag)) != nil) && (r1 == nil ==> r0 == old(@plenc.*baseRegistry.Load(p + 8, rtype(int16), tag)))
+//@   ensures[C17,C02,C08] old(@plenccodec.CodecRegistry.Load(registry, typ, tag)) == nil && @reflect.Type.Kind(typ) == 5 ==> (r1 == nil) == (old(@plenc.*baseRegistry.Load(p + 8, rtype(int32), tag)) != nil) && (r1 == nil ==> r0 == old(@plenc.*baseRegistry.Load(p + 8, rtype(int32), tag)))
+//@   ensures[C17,C02,C08] old(@plenccodec.CodecRegistry.Load(registry, typ, tag)) == nil && @reflect.Type.Kind(typ) == 6 ==> (r1 == nil) == (old(@plenc.*baseRegistry.Load(p + 8, rtype(int64), tag)) != nil) && (r1 == nil ==> r0 == old(@plenc.*baseRegistry.Load(p + 8, rtype(int64), tag)))
+//@   ensures[C17,C02,C08] old(@plenccodec.CodecRegistry.Load(registry, typ, tag)) == nil && @reflect.Type.Kind(typ) == 7 ==> (r1 == nil) == (old(@plenc.*baseRegistry.Load(p + 8, rtype(uint), tag)) != nil) && (r1 == nil ==> r0 == old(@plenc.*baseRegistry.Load(p + 8, rtype(uint), tag)))
+//@   ensures[C17,C02,C08] old(@plenccodec.CodecRegistry.Load(registry, typ, tag)) == nil && @reflect.Type.Kind(typ) == 8 ==> (r1 == nil) == (old(@plenc.*baseRegistry.Load(p + 8, rtype(uint8), tag)) != nil) && (r1 == nil ==> r0 == old(@plenc.*baseRegistry.Load(p + 8, rtype(uint8), tag)))
+//@   ensures[C17,C02,C08] old(@plenccodec.CodecRegistry.Load(registry, typ, tag)) == nil && @reflect.Type.Kind(typ) == 9 ==> (r1 == nil) == (old(@plenc.*baseRegistry.Load(p + 8, rtype(uint16), tag)) != nil) && (r1 == nil ==> r0 == old(@plenc.*baseRegistry.Load(p + 8, rtype(uint16), tag)))
+//@   ensures[C17,C02,C08] old(@plenccodec.CodecRegistry.Load(registry, typ, tag)) == nil && @reflect.Type.Kind(typ) == 10 ==> (r1 == nil) == (old(@plenc.*baseRegistry.Load(p + 8, rtype(uint32), tag)) != nil) && (r1 == nil ==> r0 == old(@plenc.*baseRegistry.Load(p + 8, rtype(uint32), tag)))
+//@   ensures[C17,C02,C08] old(@plenccodec.CodecRegistry.Load(registry, typ, tag)) == nil && @reflect.Type.Kind(typ) == 11 ==> (r1 == nil) == (old(@plenc.*baseRegistry.Load(p + 8, rtype(uint64), tag)) != nil) && (r1 == nil ==> r0 == old(@plenc.*baseRegistry.Load(p + 8, rtype(uint64), tag)))
+//@   ensures[C17,C02,C08] old(@plenccodec.CodecRegistry.Load(registry, typ, tag)) == nil && @reflect.Type.Kind(typ) == 13 ==> (r1 == nil) == (old(@plenc.*baseRegistry.Load(p + 8, rtype(float32), tag)) != nil) && (r1 == nil ==> r0 == old(@plenc.*baseRegistry.Load(p + 8, rtype(float32), tag)))
+//@   ensures[C17,C02,C08] old(@plenccodec.CodecRegistry.Load(registry, typ, tag)) == nil && @reflect.Type.Kind(typ) == 14 ==> (r1 == nil) == (old(@plenc.*baseRegistry.Load(p + 8, rtype(float64), tag)) != nil) && (r1 == nil ==> r0 == old(@plenc.*baseRegistry.Load(p + 8, rtype(float64), tag)))
+//@   ensures[C17,C02,C08] old(@plenccodec.CodecRegistry.Load(registry, typ, tag)) == nil && @reflect.Type.Kind(typ) == 24 ==> (r1 == nil) == (old(@plenc.*baseRegistry.Load(p + 8, rtype(string), tag)) != nil) && (r1 == nil ==> r0 == old(@plenc.*baseRegistry.Load(p + 8, rtype(string), tag)))
+//@   # kinds plenc cannot encode are rejected with an error
+//@   ensures[C08] old(@plenccodec.CodecRegistry.Load(registry, typ, tag)) == nil && (@reflect.Type.Kind(typ) == 0 || @reflect.Type.Kind(typ) == 12 || (@reflect.Type.Kind(typ) >= 15 && @reflect.Type.Kind(typ) <= 20) || @reflect.Type.Kind(typ) >= 26) ==> r1 != nil
+
+// ---------------------------------------------------------------------------
+// instance scoping (C17): package-level functions are the default instance's
+// methods; instance methods never consult a package-level variable
+
+//@ func plenc.Marshal
+//@   delegates[C17,C06] plenc.*Plenc.Marshal defaultPlenc
+//@ func plenc.Unmarshal
+//@   delegates[C17] plenc.*Plenc.Unmarshal defaultPlenc
+//@ func plenc.RegisterCodec
+//@   delegates[C17] plenc.*Plenc.RegisterCodec defaultPlenc
+//@ func plenc.RegisterCodecWithTag
+//@   delegates[C17] plenc.*Plenc.RegisterCodecWithTag defaultPlenc
+//@ func plenc.CodecForType
+//@   delegates[C17] plenc.*Plenc.CodecForType defaultPlenc
+//@ func plenc.CodecForTypeWithTag
+//@   delegates[C17] plenc.*Plenc.CodecForTypeWithTag defaultPlenc
+
+//@ func plenc.*Plenc.RegisterCodec
+//@   safety C17
+//@   noglobals[C17]
+//@ func plenc.*Plenc.RegisterCodecWithTag
+//@   safety C17
+//@   noglobals[C17]
+//@ func plenc.*Plenc.CodecForType
+//@   safety C17
+//@   noglobals[C17]
+//@   ensures[C17,C08] r1 == nil ==> r0 != nil
+//@ func plenc.*Plenc.CodecForTypeWithTag
+//@   safety C17
+//@   noglobals[C17]
+//@   ensures[C17,C08] r1 == nil ==> r0 != nil
+
+// ---------------------------------------------------------------------------
+// Marshal appends (C06)
+
+//@ func plenc.*Plenc.Marshal
+//@   safety C06 C17
+//@   noglobals[C17,C06]
+//@   ensures[C06] r1 == nil ==> len(r0) >= len(data)
+//@   ensures[C06,C11] r1 == nil ==> (forall j int :: 0 <= j && j < len(data) ==> r0[j] == old(data[j]))
+
+//@ func plenc.*Plenc.Unmarshal
+//@   safety C04 C17
+//@   noglobals[C17]
